@@ -46,6 +46,14 @@ func (s *session) judge(img *image) {
 	if second {
 		s2 = &session{r: r, level: 2, walDir: walDir, snapDir: snapDir, dur: map[uint64][]byte{}, parent: img.hash}
 		s2.registerDurable()
+		s2.leftoverTmp = map[string][]byte{}
+		for _, name := range sortedNames(walDir) {
+			if isTmp(name) {
+				if b, err := os.ReadFile(filepath.Join(walDir, name)); err == nil && !allZero(b) {
+					s2.leftoverTmp[name] = b
+				}
+			}
+		}
 		cur = s2
 	}
 	r.lastOp[s.level-1] = img.opIdx
@@ -180,6 +188,10 @@ func (s *session) evaluate(img *image, res *recResult) (int, bool) {
 	where := "crash at " + img.kind + "-sync point in op " + img.opKind + ", " + img.lostDesc
 	if res.err != nil {
 		sig := "C16/recovery/fatal-error"
+		if ev := s.staleTmpEvidence(filepath.Join(img.root, "wal")); ev != "" {
+			r.fail(sigStaleTmp, "%s: recovery failed in %s: %v; %s", where, res.stage, res.err, ev)
+			return 0, false
+		}
 		if s.level == 2 && img.stale {
 			// the torn write landed on sectors whose durable content is the
 			// residue of the first life's torn tail (zeroed by ReadAll, but the
